@@ -50,13 +50,14 @@
 //@ ob pfc_ctor entry=h_ctor tier=B props=C01,C03,C07,C12,C15 kind=representation defs=-DMEMALLOC=32 unwind_extra=2 timeout=900 replay=pfc grid=pfc
 //@ ob pfc_ctor_clamp entry=h_ctor_clamp tier=B props=C12 kind=statement defs=-DMEMALLOC=32,-DNS=3,-DML=2,-DBS=2 unwind=7 timeout=900 replay=pfc foreach=BSARG:0-1
 //@ ob pfc_grow entry=h_ctor tier=B props=C07 kind=statement defs=-DNS=2,-DML=1,-DBS=2 unwind=8 timeout=1200 mem=24 replay=pfc_grow foreach=MEMALLOC:1-3
+//@ ob pfc_grow_long entry=h_ctor tier=B props=C07 kind=statement defs=-DNS=1,-DML=6,-DBS=2,-DMEMALLOC=1 unwind=10 timeout=1200 mem=24 replay=pfc_grow
 //@ ob pfc_grow3 entry=h_ctor tier=B props=C07 kind=statement defs=-DNS=3,-DML=2,-DBS=3 unwind=34 timeout=2400 replay=pfc_grow foreach=MEMALLOC:1-4 only=thorough
 //@ ob pfc_extract entry=h_extract tier=B props=C01,C03,C02,C07,C12,C15 kind=representation unwindset=mk_dict.0:40 timeout=900 replay=pfc grid=pfc
 //@ ob pfc_locate entry=h_locate tier=B props=C01,C03,C07,C12,C14 kind=representation unwindset=mk_dict.0:40 timeout=900 replay=pfc grid=pfc
 //@ ob pfc_rank entry=h_rank tier=B props=C03,C14,C15 kind=representation unwindset=mk_dict.0:40 timeout=900 replay=pfc grid=pfc
 //@ ob pfc_absent entry=h_absent tier=B props=C02,C07,C14 kind=representation unwindset=mk_dict.0:40 timeout=900 replay=pfc grid=pfc
-//@ ob pfc_prefix entry=h_prefix tier=B props=C04,C07,C13,C14 kind=representation unwindset=mk_dict.0:40 timeout=900 replay=pfc grid=pfc
-//@ ob pfc_extractPrefix entry=h_extractPrefix tier=B props=C04,C13,C07 kind=representation unwindset=mk_dict.0:40 timeout=900 replay=pfc grid=pfc
+//@ ob pfc_prefix entry=h_prefix tier=B props=C04,C07,C13,C14 kind=representation unwindset=mk_dict.0:40 timeout=900 ttimeout=3600 replay=pfc grid=pfc quickgrid=1x2b2+2x1b2+3x2b2+3x2b3 gridskip=5x3b5
+//@ ob pfc_extractPrefix entry=h_extractPrefix tier=B props=C04,C13,C07 kind=representation unwindset=mk_dict.0:40 timeout=900 ttimeout=3600 replay=pfc grid=pfc quickgrid=1x2b2+2x1b2+3x2b2+3x2b3 gridskip=4x3b4+5x3b5+5x2b5+6x2b6+6x2b3+6x2b2+4x3b2+5x2b2+5x2b3
 //@ ob pfc_table entry=h_table tier=B props=C13,C07 kind=representation unwindset=mk_dict.0:40 timeout=900 replay=pfc grid=pfc
 #include "vec.h"
 DEFINE_VEC(size_t, vec_size_t)
@@ -110,9 +111,10 @@ static void mk_dict(const struct pfc_in *in, struct pfc_repr *r, StringDictionar
   for (uint b = 0; b < NB + 2; b++) LogSequence__set_field(&g_ls, g_bl, 8, b, r->off[b]);
   d->blStrings = &g_ls;
 }
-static void symbolic_pattern(uchar *q, uint *qlen, uint minlen) {
-  uint l; __CPROVER_assume(l >= minlen && l <= ML + 1); *qlen = l;
+static uint symbolic_pattern(uchar *q, uint minlen) {
+  uint l; __CPROVER_assume(l >= minlen && l <= ML + 1);
   for (int k = 0; k <= ML + 1; k++) { uchar c; if (k < l) { __CPROVER_assume(c != 0); q[k] = c; } else q[k] = 0; }
+  return l;
 }
 #define SETUP struct pfc_in in; struct pfc_repr r; StringDictionaryPFC d; sd_symbolic_set(&in); repr_pfc(&in, &r); mk_dict(&in, &r, &d)
 /* C01/C03: extract(k+1) == S[k] (bytes, NUL, length); C02: bad IDs; C15 metadata accessors */
@@ -154,7 +156,7 @@ void h_rank(void) {
 /* C02: a non-member is not located */
 void h_absent(void) {
   SETUP;
-  uchar in_q[ML + 2]; uint in_qlen; symbolic_pattern(in_q, &in_qlen, 1);
+  uchar in_q[ML + 2]; uint in_qlen = symbolic_pattern(in_q, 1);
   int member = 0; for (int i = 0; i < NS; i++) if (sd_cmp(in_q, in.strs[i]) == 0) member = 1;
   uchar keep[ML + 2]; for (int i = 0; i < ML + 2; i++) keep[i] = in_q[i];
   unsigned long id = StringDictionaryPFC__locate(&d, in_q, in_qlen);
@@ -170,7 +172,7 @@ static void expected_range(const struct pfc_in *in, const uchar *p, uint plen, i
 /* C04: locatePrefix yields exactly the contiguous ID range of the members that start with p */
 void h_prefix(void) {
   SETUP;
-  uchar in_q[ML + 2]; uint in_qlen; symbolic_pattern(in_q, &in_qlen, 1);
+  uchar in_q[ML + 2]; uint in_qlen = symbolic_pattern(in_q, 1);
   int L, R; expected_range(&in, in_q, in_qlen, &L, &R);
   IteratorDictIDContiguous *it = (IteratorDictIDContiguous *)StringDictionaryPFC__locatePrefix(&d, in_q, in_qlen);
   __CPROVER_assert(it != NULL, "C04: locatePrefix returns an iterator");
@@ -195,7 +197,7 @@ void h_prefix(void) {
 /* C04/C13: extractPrefix yields exactly those strings */
 void h_extractPrefix(void) {
   SETUP;
-  uchar in_q[ML + 2]; uint in_qlen; symbolic_pattern(in_q, &in_qlen, 1);
+  uchar in_q[ML + 2]; uint in_qlen = symbolic_pattern(in_q, 1);
   int L, R; expected_range(&in, in_q, in_qlen, &L, &R);
   IteratorDictStringPFC *it = (IteratorDictStringPFC *)StringDictionaryPFC__extractPrefix(&d, in_q, in_qlen);
   if (L < 0) {
